@@ -302,6 +302,53 @@ func GenC02(rng *rand.Rand, thorough bool, emit func(*Sx)) {
 			}
 		}
 	}
+	// An unread message with a line longer than the line limit, segmented so that the over-long paragraph is a
+	// raw read of its own between "...CRLF" and ".CRLF<bait commands>": the drain of the rest of the message
+	// meets the over-long line.  Whatever the server then does (it closes), it has not seen CRLF.CRLF: the bait
+	// lines behind the paragraph's final dot are message text, never commands.
+	for mi, m := range modes {
+		for _, lim := range []int{60, 2000} {
+			for pi, stop := range []int64{0, 3, 9} {
+				for ri, ret := range []BErr{BNil, rejectErr()} {
+					for shape := 0; shape < 3; shape++ {
+						if !thorough && (mi+pi+ri+shape)%2 != 0 {
+							continue
+						}
+						cfg := DefaultCfg()
+						cfg.LMTP, cfg.LMTPSession, cfg.MaxLine = m.lmtp, m.sess, lim
+						f := newF(cfg)
+						f.known = false
+						f.hello()
+						f.raw("MAIL FROM:<s@ok>\r\nRCPT TO:<r0@ok>\r\nDATA\r\n")
+						p := DefaultPlan()
+						p.Stop, p.Ret = stop, ret
+						f.script.Data = []DataPlan{p}
+						f.raw("first line\r\n")
+						f.cut()
+						switch shape {
+						case 0: // the paragraph alone in its read
+							f.raw(strings.Repeat("x", lim+40))
+							f.cut()
+						case 1: // in two reads
+							f.raw(strings.Repeat("x", lim-5))
+							f.cut()
+							f.raw(strings.Repeat("y", 60))
+							f.cut()
+						case 2: // three times the limit
+							f.raw(strings.Repeat("x", 3*lim))
+							f.cut()
+						}
+						f.raw(".\r\nMAIL FROM:<bait@evil>\r\nRCPT TO:<bait@evil>\r\nlast line\r\n")
+						f.cut()
+						f.raw(".\r\n")
+						f.raw("MAIL FROM:<after@ok>\r\nQUIT\r\n")
+						f.add(L(A("must-not-mail"), XS("bait@evil")))
+						emit(RunConv(f.caseOf("C02", segStream(rng, f.out, f.cuts, 0, rawEOF))))
+					}
+				}
+			}
+		}
+	}
 	// A read that fails inside the message (finding F30).  A read deadline that has expired stays expired
 	// until the command loop arms it again; on a scripted connection that is a failure that REPEATS: the
 	// backend's read fails, then the server's drain of the rest of the message fails.  The end of the
